@@ -488,6 +488,8 @@ def run_property(pid, tier, replay_path=None, only=None, nproc=None):
     obligations = discharged = nsat = nunknown = 0
     inconclusive = []
     violations = []
+    from vf import xhair as _xh
+    xh_results = _xh.run_all(pid, tier, nproc) if (only is None and _xh.XHAIR.get(pid)) else []
     known_hits = []
     samples = []
     assumptions = []
@@ -567,9 +569,49 @@ def run_property(pid, tier, replay_path=None, only=None, nproc=None):
             inconclusive.append("%s%s: model for %s did not reproduce on the real code (%s)" % (
                 hname, params, label, (rr.get("error") or "no violation at this label")[-300:]))
 
+    # ---- CrossHair conditions
+    xh_summary = []
+    for r in xh_results:
+        xh_summary.append({k: r.get(k) for k in ("file", "func", "verdict", "detail", "call", "env",
+                                                 "secs", "twin", "reproduced")})
+        solver_s += r.get("secs", 0.0)
+        if r["twin"]:
+            if r["verdict"] != "sat":
+                inconclusive.append("crosshair twin %s not reachable: %s" % (r["func"], r.get("detail")))
+            continue
+        obligations += 1
+        if r["verdict"] == "unsat":
+            discharged += 1
+            distinct.add(("xh", r["func"], json.dumps(r["env"], sort_keys=True)))
+        elif r["verdict"] == "sat":
+            nsat += 1
+            if r.get("reproduced"):
+                k = match_known(known, pid, "xh:" + r["func"], r["env"], r.get("call", ""))
+                os.makedirs(os.path.join(VERIF, "replays"), exist_ok=True)
+                path = os.path.join(VERIF, "replays", "%s-xh-%s.json" % (pid, r["func"]))
+                with open(path, "w") as f:
+                    json.dump(dict(property=pid, kind="crosshair", file=r["file"], func=r["func"],
+                                   args=r["args"], env=r["env"], replay_output=r["replay_output"]),
+                              f, indent=1)
+                if k:
+                    known_hits.append((k, "xh:" + r["func"], r["env"], r.get("call", "")))
+                else:
+                    violations.append((path, "xh:" + r["func"], r["env"], r.get("call", ""),
+                                       dict(detail=r.get("detail"), replay=r["replay_output"])))
+            else:
+                inconclusive.append("crosshair counterexample %s did not reproduce: %s" % (
+                    r.get("call"), r.get("replay_output")))
+        else:
+            nunknown += 1
+            inconclusive.append("crosshair %s: %s" % (r["func"], r.get("detail")))
+    if xh_results and len(samples) < 3:
+        samples.append(dict(kind="crosshair condition", **{k: xh_results[0].get(k) for k in
+                                                           ("file", "func", "verdict", "detail", "env")}))
+
     wall_s = time.time() - t_start
     # ---- evidence
-    funcs = sorted({f for h in hs for f in h.functions})
+    funcs = sorted({f for h in hs for f in h.functions} |
+                   {f for sp in _xh.XHAIR.get(pid, []) for f in sp["functions"]})
     files = {}
     for f in funcs:
         path = f.split(":")[0]
@@ -597,6 +639,11 @@ def run_property(pid, tier, replay_path=None, only=None, nproc=None):
                                  instances=(h.quick if tier == "quick" else h.thorough))
                     for h in hs},
             harnesses=per_harness,
+            crosshair=xh_summary,
+            crosshair_bounds=[dict(file=sp["file"], bound=sp["bound"], outside=sp["out"],
+                                   env=(sp["env_quick"] if tier == "quick" else sp["env_thorough"]),
+                                   per_condition_timeout=(sp["t_quick"] if tier == "quick" else sp["t_thorough"]))
+                              for sp in _xh.XHAIR.get(pid, [])],
             known_findings_hit=[dict(id=k["id"], harness=hn, params=pp, label=lb)
                                 for k, hn, pp, lb in known_hits],
             inconclusive=inconclusive[:40],
@@ -636,6 +683,15 @@ def run_property(pid, tier, replay_path=None, only=None, nproc=None):
 
 def do_replay_file(pid, path):
     payload = json.load(open(path))
+    if payload.get("kind") == "crosshair":
+        from vf import xhair as _xh
+        ok, last = _xh.replay_call(os.path.join(VERIF, payload["file"]), payload["func"],
+                                   payload["args"], payload["env"])
+        print(json.dumps(dict(reproduced=ok, output=last)))
+        if ok:
+            print("VIOLATION property=%s replay=%s" % (pid, path))
+            return 1
+        return 0
     h = HARNESSES[(pid, payload["harness"])]
     rr = run_pool([(pid, h.name, payload["params"], "replay", 0, payload["values"], None)], 1, 600)[0]
     fam = payload["label"].split("[")[0]
